@@ -75,6 +75,45 @@ def run(ctx):
             mv = [e for e in events if e["op"] == "multivariate_normal"]
             ctx.sample(dict(desc, n_accept=nacc, first_draw_mean=mv[0]["mean"], first_draw_cov_diag=np.diag(mv[0]["cov"]),
                             generator=mv[0]["gen"], cap_active=cap_active))
+    # ---- draws on a real process pool: rows handled by different tasks must not share their variates
+    if ctx.replay is None and ctx.variant == "plain":
+        import schwimmbad
+        mp = schwimmbad.MultiPool(processes=2)
+        for c in range(ctx.n(2, 8)):
+            rng = ctx.rng(7000 + c)
+            pb = session.make_problem(rng, N=int(rng.choice([40, 120])), profile="flat", n_offsets=0,
+                                      poly_trend=int(rng.choice([1, 2])), lib_units=None)
+            nb = int(rng.choice([2, 4, 7]))
+            nl = int(rng.choice([1, 2]))
+            try:
+                j = TheJoker(pb.prior, pool=mp, rng=np.random.default_rng([ctx.seed, ctx.shard, c]), tempfile_path=ctx.tmpdir)
+                out = j.rejection_sample(pb.data, pb.lib, n_batches=nb, n_linear_samples=nl)
+            except Exception as e:
+                ctx.exception(e, "MultiPool session", dict(case=c))
+                continue
+            tg, okm = session.tags_of(pb, np.asarray(out["P"].to_value("d")))
+            names = ["K", "v0"] + ["v%d" % k for k in range(1, pb.ps["poly_trend"])]
+            import astropy.units as _u
+            un = [session.gen.U(pb.du)] * 2 + [session.gen.U(pb.du) / _u.day ** k for k in range(1, pb.ps["poly_trend"])]
+            X = np.stack([np.asarray(out[nm].to_value(u_)) for nm, u_ in zip(names, un)], axis=1)
+            Z = []
+            for r in range(len(out)):
+                t_ = int(tg[r])
+                z = oracle.z_column(pb.lin, pb.tagP[t_], pb.rows["e"][t_], pb.rows["omega"][t_], pb.rows["M0"][t_], "c")
+                ref = oracle.marginal(pb.lin, z, pb.tagP[t_], pb.rows["e"][t_], pb.s_seen[t_], want_post=True)
+                Lc = np.linalg.cholesky(ref["A"])
+                Z.append(np.linalg.solve(Lc, X[r] - ref["a"]))
+            Z = np.array(Z)
+            # squared norms of the whitened draws are chi2: two rows with the same value (to 1e-9) share their variates
+            q = np.sort(np.sum(Z ** 2, axis=1))
+            ctx.evaluations += 1
+            ctx.distinct.add(repr(("multipool-independence", nb, nl)))
+            ctx.count("multipool_rows_compared", len(q))
+            if len(q) > 1 and np.any(np.diff(q) < 1e-9 * (1 + q[1:])):
+                ctx.violation("draws-shared-between-batches", "on MultiPool(2) with n_batches=%d, %d pairs of returned rows have identical "
+                              "whitened linear-parameter draws: the batches did not get independent random streams"
+                              % (nb, int(np.sum(np.diff(q) < 1e-9 * (1 + q[1:])))), dict(case=c, n_batches=nb, rows=len(q)))
+        mp.close()
     # ---- statistical backstop on hand-picked contrasts
     if ctx.replay is None and ctx.variant == "plain":
         ncase = ctx.n(2, 6)
